@@ -17,6 +17,7 @@ def run(chk, tier):
     gguard.check(chk)
     gcalls.check(chk)
     gcalls.check_required_rules(chk)
+    gcalls.check_order(chk)
     gguard.check_memo_caches(chk)
     gguard.check_returns(chk)
     ghaz.check_main(chk)
